@@ -159,6 +159,29 @@ func verifH_C14_errors() {
 			verifTag("stmt", "update-size-depends-on-row")
 		}
 	default:
+		if bad == 1 {
+			// CREATE TABLE whose k-th column makes a catalog row of 396..407 bytes
+			// (20 + the two names; the limit is 400): either it is created whole or
+			// it is refused and nothing changed
+			k := verifChoice("badcol", 2)
+			total := 376 + verifChoice("namelen", 12)
+			cname := make([]byte, total-len("newt"))
+			for i := range cname {
+				cname[i] = 'c'
+			}
+			cols := []verifCol{{"a", storage.TypeInt}, {"b", storage.TypeBigInt}}
+			cols[k].name = string(cname)
+			err = EvaluateCreateTable(verifCreateStmt("newt", cols), rs)
+			verifTag("stmt", "create-long-names")
+			verifTag("badcol", fmt.Sprint(k+1))
+			if err == nil {
+				db.tables = append(db.tables, &verifTable{name: "newt", cols: cols})
+				verifCheckDB(rs, db, "created/")
+				verifReach("created")
+				return
+			}
+			break
+		}
 		// CREATE TABLE whose k-th column definition is refused by the catalog (length beyond 32 bits)
 		k := verifChoice("badcol", 2)
 		ct := verifCreateStmt("newt", verifStdCols[:2])
@@ -224,13 +247,17 @@ func verifH_C16_cache() {
 		stmts = append(stmts, st)
 	}
 	type outcome struct {
-		errs []bool
+		errs  []bool
+		dirty int // most dirty pages any one statement left behind
 	}
 	run := func(capacity int, tag string) (outcome, *verifDB) {
 		rs, db := verifPrefixDB(sc, capacity, false)
 		var o outcome
 		for _, st := range stmts {
 			err := st.run(rs)
+			if d := storage.VerifDirtyCount(rs); d > o.dirty {
+				o.dirty = d
+			}
 			verifAssert(err != storage.ErrLRUCacheFull, tag+"cache-never-full-of-dirty")
 			o.errs = append(o.errs, err != nil)
 			if err == nil {
@@ -242,8 +269,12 @@ func verifH_C16_cache() {
 		storage.VerifAbandon(rs)
 		return o, db
 	}
-	oSmall, _ := run(small, "small/")
 	oBig, _ := run(0, "default/")
+	// the property is about statements whose dirty set fits the capacity: every
+	// page a statement dirtied stays in the cache until the flush that follows
+	// it, and the statement needs one more slot for the page it reads next
+	verifAssume(oBig.dirty < small)
+	oSmall, _ := run(small, "small/")
 	for i := range oSmall.errs {
 		verifAssert(oSmall.errs[i] == oBig.errs[i], "same-outcome")
 	}
